@@ -311,8 +311,22 @@ func (r *Rng) fname() string {
 func genHosts(r *Rng, c *Ctx) string {
 	var b strings.Builder
 	nl := r.Pick([]int{0, 1, 2, 3, 5, 8, 12, 20})
+	long := -1
+	if nl > 0 && r.Chance(3) {
+		long = r.Intn(nl)
+	}
 	for i := 0; i < nl; i++ {
 		switch k := r.Intn(20); {
+		case i == long:
+			// one address with hundreds of aliases: a line of 4 KB - 60 KB (bufio.Scanner takes lines up to 64 KB)
+			b.WriteString(r.pick(ipPool))
+			target := r.Pick([]int{4000, 4200, 5000, 9000, 20000, 40000, 60000})
+			start := b.Len()
+			for j := 0; b.Len()-start < target; j++ {
+				b.WriteString(r.pick([]string{" ", " ", "\t", "  "}))
+				b.WriteString(fmt.Sprintf("alias%d-%s", j, r.fname()))
+			}
+			c.Stat("line:long-4k-60k")
 		case k < 12:
 			ip := r.pick(ipPool)
 			if r.Chance(12) {
